@@ -126,9 +126,16 @@ def random_histories(rep, nhist):
     units = ["km", "m", "cm", "kg", "g", "in", "ft"]
     for hi in range(nhist):
         cfg = dict(render.cfg_with())
-        cur = dict(dec=cfg["dec"], tho=cfg["tho"])
+        two = hi % 3 == 2        # every third history: two calculators alive in the process, each with its own separators
+        curs = {1: dict(dec=cfg["dec"], tho=cfg["tho"]), 2: dict(dec=cfg["dec"], tho=cfg["tho"])}
+        on = 1
         steps, evs = [], []
         for k in range(40):
+            if two and rng.random() < 0.35:
+                evs.append({"ev": "switch", "from": on, "to": 3 - on})
+                on = 3 - on
+            cur = curs[on]
+            nsteps = len(steps)
             if rng.random() < 0.3:
                 d, t = rng.choice(render.SEP_CONFIGS)
                 pair = [("set_dec", d), ("set_tho", t)]
@@ -137,7 +144,10 @@ def random_histories(rep, nhist):
                 for op, v in pair:
                     steps.append({"op": op, "v": v})
                     evs.append({"ev": op, "v": v})
-                cur = dict(dec=d, tho=t)
+                curs[on] = dict(dec=d, tho=t)
+                if on == 2:
+                    for s_ in steps[nsteps:]:
+                        s_["calc"] = 2
                 continue
             c = render.cfg_with(dec=cur["dec"], tho=cur["tho"])
             if rng.random() < 0.12:
@@ -147,6 +157,8 @@ def random_histories(rep, nhist):
                 line = {"form": "date_lit", "a": a}
                 steps.append({"op": "execute", "lang": "en", "text": sp[k % len(sp)]})
                 evs.append({"ev": "execute", "lang": "en", "lines": [line], "_texts": [sp[k % len(sp)]], "_sep": dict(cur)})
+                if on == 2:
+                    steps[-1]["calc"] = 2
                 continue
             amt = fraction_to_q(Fraction(rng.randint(1, 99999), rng.choice([1, 2, 4, 8, 10, 100])))
             kind = rng.choice(["num", "money", "unit", "pct"])
@@ -165,16 +177,27 @@ def random_histories(rep, nhist):
             texts = [render.render_line(l, c, "lower", salt="%d.%d.%d" % (hi, k, i)) for i, l in enumerate(lines)]
             steps.append({"op": "execute", "lang": "en", "text": "\n".join(texts)})
             evs.append({"ev": "execute", "lang": "en", "lines": lines, "_texts": texts, "_sep": dict(cur)})
-        cases.append({"id": "sh%d" % hi, "cfg": cfg, "steps": steps, "fresh": True})
+            if on == 2:
+                steps[-1]["calc"] = 2
+        case = {"id": "sh%d" % hi, "cfg": cfg, "steps": steps, "fresh": True}
+        if two:
+            case["two"] = True
+        cases.append(case)
         metas.append(evs)
     obs = run_harness_stable_day(cases, "c08.rand", jobs=8)
     events, index = [], []
     for case, evs, o in zip(cases, metas, obs):
-        events.append(reset_event(case["cfg"], o.get("day0", 0)))
+        events.append(reset_event(case["cfg"], o.get("day0", 0), extra={"two": True} if case.get("two") else None))
         index.append(None)
         steps = o.get("steps") or []
-        for k, e in enumerate(evs):
+        k = -1
+        for e in evs:
             ev = {kk: vv for kk, vv in e.items() if not kk.startswith("_")}
+            if e["ev"] == "switch":          # an event of the trace, not a call
+                events.append(ev)
+                index.append(None)
+                continue
+            k += 1
             if e["ev"] == "execute":
                 st = steps[k] if k < len(steps) else o
                 ss = proj.slots_of_step(st)
